@@ -94,7 +94,9 @@ fn may_hold_mut<'tcx>(tcx: TyCtxt<'tcx>, env: TypingEnv<'tcx>, ty: Ty<'tcx>, dep
     match ty.kind() {
         ty::Bool | ty::Char | ty::Int(_) | ty::Uint(_) | ty::Float(_) | ty::Str | ty::Never => false,
         ty::FnDef(..) | ty::FnPtr(..) => false,
-        ty::Ref(_, inner, m) => m.is_mut() || may_hold_mut(tcx, env, *inner, depth + 1),
+        // nothing can be written through a shared reference, whatever it points to (`&&mut T` only reborrows as
+        // `&T`), short of interior mutability, which the analysis assumes absent (checked for the crate's own types)
+        ty::Ref(_, _, m) => m.is_mut(),
         ty::RawPtr(..) => true,
         ty::Slice(t) | ty::Array(t, _) => may_hold_mut(tcx, env, *t, depth + 1),
         ty::Tuple(ts) => ts.iter().any(|t| may_hold_mut(tcx, env, t, depth + 1)),
